@@ -130,7 +130,7 @@ func drawC05(t *rapid.T) C05Case {
 		Unicode:   rapid.IntRange(0, 5).Draw(t, "unicode") == 0,
 		WideDates: true,
 	}
-	gen.MaybeLarge(t, &cfg, 40)
+	gen.MaybeLarge(t, &cfg, 4)
 	j := gen.GenJournal(t, cfg)
 	wide := rapid.IntRange(0, 7).Draw(t, "wide") == 0
 	if wide {
@@ -156,6 +156,10 @@ func drawC05(t *rapid.T) C05Case {
 	tree := gen.SplitIntoTree(t, variant, 7)
 	if wide {
 		tree = gen.SplitIntoTreeMin(t, variant, 4, 8)
+	}
+	if !wide && rapid.IntRange(0, 11).Draw(t, "deepChain") == 0 {
+		// an include chain deeper than any tree above
+		tree = gen.DeepChainTree(t, variant, rapid.IntRange(17, 40).Draw(t, "chainDepth"))
 	}
 	c.Variant, c.Main, c.Depth = tree.Files, tree.Main, tree.Depth
 	nfs := rapid.IntRange(1, 3).Draw(t, "nFlagSets")
